@@ -509,6 +509,61 @@ def bv_forms_items(ctx):
                   "bv.form_owned_bv_" + k, "bv.form_ref_bv_" + k])
     return it
 GROUPS["bv_forms"] = dict(name="bv_forms", features="#![feature(allocator_api)]", prelude=bv_ops_prelude, items=bv_forms_items)
+# ---- native-integer operands: Bvf<I,N> op= x  (x: T in u8..u64) = Bvf::<u64,2>::try_from(x).unwrap() then op= &temp
+def uint_ctx(i, t, **kw):
+    c = pair(i, "u64", **kw)          # the temporary is a Bvf<u64, 2>: operand word J = u64
+    c["T"] = t
+    c["YT"] = "_" + t if t not in (i, "u64") else (c["XJ"] if t == "u64" else "")
+    return c
+def bvf_uint_prelude(ctx):
+    c = dict(ctx, SGN=ctx.get("SGN", "+"))
+    p = WORD_PRELUDE + ["conv_std.rs"] + VALUE_PRELUDE + ["bvf.rs", "bvf_val.rs"] + rhs_bvf_prelude(c)
+    t = ctx["T"]
+    if t not in (ctx["I"], "u64"):
+        p += [("word.rs", {"I": t, "X": "_" + t}), ("value_word.rs", {"I": t, "X": "_" + t})]
+    p += [("word_lz_vstd.rs", {"I": t, "X": "{YT}"})] if t not in (ctx["I"],) else []
+    p += [("int_conv.rs", {"I": "u64", "J": t, "X": "{XJ}", "Y": "{YT}"}), ("int_cast.rs", {"I": "u64", "J": t, "X": "{XJ}", "Y": "{YT}"})]
+    return p
+def bvf_uint_items(ctx):
+    k = forms_kind(ctx)
+    t = ctx["T"]
+    it = BVF_BASE + rhs_bvf_items(ctx)
+    if t not in (ctx["I"], "u64"):
+        ot = {"I": t, "X": "_" + t}
+        it += [("decl", "int.constants", ot)] + [("stub", u, ot) for u in INT_METHODS]
+    it += stub(BVF_CORE)
+    it += [("stub", "int.bvf_try_from", {"I": "u64", "J": t, "X": "{XJ}", "Y": "{YT}"})]
+    it += stub(["bvf.addsub_bvf"] if k == "val" else ["bvf.binop_bvf"])
+    return it + verify(["bvf.assign_uint_" + k])
+GROUPS["bvf_uint"] = dict(name="bvf_uint", prelude=bvf_uint_prelude, items=bvf_uint_items)
+def uint_ctx_d(t, **kw):
+    c = dict({"I": "u64", "J": "u64", "XJ": "", "XD": "", "T": t, "YT": "" if t == "u64" else "_" + t}, **kw)
+    return c
+def tvocab(ctx):
+    t = ctx["T"]
+    p = []
+    if t != "u64":
+        p += [("word.rs", {"I": t, "X": "_" + t}), ("value_word.rs", {"I": t, "X": "_" + t}), ("word_lz_vstd.rs", {"I": t, "X": "_" + t})]
+    p += [("int_conv.rs", {"I": "u64", "J": t, "X": "", "Y": "{YT}"}), ("int_cast.rs", {"I": "u64", "J": t, "X": "", "Y": "{YT}"})]
+    return p
+def titems(ctx):
+    t = ctx["T"]
+    if t == "u64":
+        return []
+    ot = {"I": t, "X": "_" + t}
+    return [("decl", "int.constants", ot)] + [("stub", u, ot) for u in INT_METHODS]
+def bvd_uint_items(ctx):
+    k = forms_kind(ctx)
+    it = BVD_BASE + titems(ctx) + stub(BVD_CORE) + [("stub", "int.bvd_from", {"J": "{T}", "Y": "{YT}"})]
+    it += stub(["bvd.addsub_bvd"] if k == "val" else ["bvd.binop_bvd"])
+    return it + verify(["bvd.assign_uint_" + k])
+GROUPS["bvd_uint"] = dict(name="bvd_uint", features="#![feature(allocator_api)]",
+    prelude=lambda ctx: BVD_VAL_PRELUDE + ["iarray.rs", ("chunk.rs", {"J": "u64", "Y": ""})] + tvocab(ctx), items=bvd_uint_items)
+def bv_uint_items(ctx):
+    k = forms_kind(ctx)
+    it = BV_BASE + titems(ctx) + [("stub", "bvf.assign_uint_" + k), ("stub", "bvd.assign_uint_" + k)]
+    return it + verify(["bv.assign_uint_" + k])
+GROUPS["bv_uint"] = dict(name="bv_uint", features="#![feature(allocator_api)]", prelude=lambda ctx: BV_VAL_PRELUDE + tvocab(ctx), items=bv_uint_items)
 GROUPS["div_theory"] = dict(name="div_theory", prelude=lambda ctx: WORD_PRELUDE + VALUE_PRELUDE + ["value_div.rs"], items=lambda ctx: [("decl", "decl.Bit")])
 GROUPS["mul_theory"] = dict(name="mul_theory", prelude=lambda ctx: WORD_PRELUDE + VALUE_PRELUDE + ["value_mul.rs"], items=lambda ctx: [("decl", "decl.Bit")])
 
@@ -707,6 +762,19 @@ PROPS["C16"]["quick"] += [("bv_defaults", U64)]
 PROPS["C16"]["thorough"] += [("bv_defaults", U64)]
 PROPS["C12"]["quick"] += [("bv_iarray", {"I": "u64", "J": j}) for j in WQ]
 PROPS["C12"]["thorough"] += [("bv_iarray", {"I": "u64", "J": j}) for j in W4]
+def uint_jobs(its, ts, bitops, arith):
+    out = []
+    for (i, t) in its:
+        out += [("bvf_uint", uint_ctx(i, t, **BITOPS[o])) for o in bitops] + [("bvf_uint", uint_ctx(i, t, **ARITH[o])) for o in arith]
+    for t in ts:
+        out += [("bvd_uint", uint_ctx_d(t, **BITOPS[o])) for o in bitops] + [("bvd_uint", uint_ctx_d(t, **ARITH_D[o])) for o in arith]
+        out += [("bv_uint", uint_ctx_d(t, **BITOPS[o])) for o in bitops] + [("bv_uint", uint_ctx_d(t, **ARITH_D[o])) for o in arith]
+    return out
+PROPS["C01"]["quick"] += uint_jobs([("u64", "u8"), ("u8", "u64")], ["u8"], (), ("add",)) + uint_jobs([], ["u64"], (), ("sub",))
+PROPS["C01"]["thorough"] += uint_jobs([(i, t) for i in W4 for t in W4], W4, (), ("add", "sub"))
+PROPS["C04"]["quick"] += uint_jobs([("u64", "u8"), ("u8", "u64")], ["u8"], ("or",), ()) + uint_jobs([], ["u64"], ("xor",), ())
+PROPS["C04"]["thorough"] += uint_jobs([(i, t) for i in W4 for t in W4], W4, ("and", "or", "xor"), ())
+UINT_Q20 = uint_jobs([("u8", "u16")], ["u32"], ("and",), ("sub",))
 def forms_jobs(pairs, js, bitops, arith):
     out = []
     for j in js:
@@ -716,7 +784,7 @@ def forms_jobs(pairs, js, bitops, arith):
     return out
 def bv_forms_jobs(bitops, arith):
     return [("bv_forms", pair("u64", "u64", **BITOPS[o])) for o in bitops] + [("bv_forms", pair("u64", "u64", **ARITH_D[o])) for o in arith]
-FORMS_Q = bv_forms_jobs(("or",), ("add", "sub")) + forms_jobs([("u64", "u64"), ("u8", "u64")], ["u64"], ("or",), ("add", "sub")) + forms_jobs([], ["u8"], ("xor",), ())
+FORMS_Q = UINT_Q20 + bv_forms_jobs(("or",), ("add", "sub")) + forms_jobs([("u64", "u64"), ("u8", "u64")], ["u64"], ("or",), ("add", "sub")) + forms_jobs([], ["u8"], ("xor",), ())
 FORMS_T = bv_forms_jobs(("and", "or", "xor"), ("add", "sub")) + forms_jobs(PT, W4, ("and", "or", "xor"), ("add", "sub"))
 def yj64(j):
     return "" if j == "u64" else "_" + j
@@ -873,14 +941,14 @@ MANIFEST_TEXT["C20"] = dict(
           "amount types); `!a` for Bvf, &Bvf, Bvd, &Bvd (separate body), Bv. All contracts state the result over the whole abstract view and leave borrowed operands untouched (they are `&` parameters: Rust's type system, and "
           "the contracts mention only their old value). Exploration for the remaining forms: every owned/borrowed/assign form of + - * / % & | ^ << >> ! and the native-integer forms are compared against each other "
           "(identical length and bits, borrowed operands unchanged)." + DYN_NOTE),
-    note=("Not under contract (second engine only): forms of * / %, native-integer operands (they build a temporary vector), Bv's forms with a by-value or Bvf/Bvd right operand, the by-value / by-reference shift forwarders. "
+    note=("Native-integer right operands of the compound assignments + - & | ^ are verified for Bvf, Bvd and Bv (x: u8..u64): same result as with a vector of length w and value x. Not under contract (second engine only): forms of * / %, the non-assigning native-integer forms, Bv's forms with a by-value or Bvf/Bvd right operand, the by-value / by-reference shift forwarders. "
           "Assumed: derive(Clone) of Bvf/Bvd returns a structurally equal value (T1). " + TRUST_NOTE))
 MANIFEST_TEXT["C01"] = dict(
     text=("Proof (add/sub): the real bodies of AddAssign/SubAssign<&Bvf<I2,N2>> for Bvf<I1,N1> (both the same-word-size branch and the re-chunking branch through get_int) are verified against the VALUE-level contract "
           "val(result) == (val(a) +/- val(b)) mod 2^len, len unchanged, storage beyond len zero, on top of verified contracts of the word primitives cadd/csub/wmul/mask and of the carry-chain/bridge lemmas (spec/prelude/value*.rs)." + DYN_NOTE),
-    note=(COVER_BVF.replace("and the Bvd implementation (symbolic word count, spare capacity included), ", "") + "Also verified: Bvd += / -= &Bvd (two-step overflowing_add/sub carry chain, symbolic word count, spare capacity), Bvf += / -= &Bvd and Bvd += / -= &Bvf (operand re-chunked through get_int). Bv += / -= &Bvf/&Bvd/&Bv (dispatch on both operands) are verified too. MULTIPLICATION: the four schoolbook bodies (&Bvf*&Bvf any two word sizes, &Bvf*&Bvd, &Bvd*&Bvd, &Bvd*&Bvf) are verified against val(r) == (val(a)*val(b)) mod 2^len with a row/column invariant over exact integer equations (spec/prelude/value_mul.rs; the carry never overflows). Not yet under contract: native right operands, by-value / assigning forwarders of * (covered only by the second engine). " + TRUST_NOTE))
+    note=(COVER_BVF.replace("and the Bvd implementation (symbolic word count, spare capacity included), ", "") + "Also verified: Bvd += / -= &Bvd (two-step overflowing_add/sub carry chain, symbolic word count, spare capacity), Bvf += / -= &Bvd and Bvd += / -= &Bvf (operand re-chunked through get_int). Bv += / -= &Bvf/&Bvd/&Bv (dispatch on both operands) are verified too. MULTIPLICATION: the four schoolbook bodies (&Bvf*&Bvf any two word sizes, &Bvf*&Bvd, &Bvd*&Bvd, &Bvd*&Bvf) are verified against val(r) == (val(a)*val(b)) mod 2^len with a row/column invariant over exact integer equations (spec/prelude/value_mul.rs; the carry never overflows). Native right operands of += / -= (x: u8..u64; Bvf, Bvd, Bv: a temporary vector is built by the verified conversion and the verified body runs) are verified against val(r) == (val(a) +/- x) mod 2^len. Not yet under contract: u128/usize natives, by-value / assigning forwarders of * (covered only by the second engine). " + TRUST_NOTE))
 MANIFEST_TEXT["C04"] = dict(
     text=("Proof: BitAnd/BitOr/BitXorAssign<&Bvf<I2,N2>> for Bvf<I1,N1> (both branches), the same three for Bvd with a &Bvd operand, Not for Bvf/&Bvf/Bvd are verified against the bit-by-bit contract with the right operand zero-extended and ignored beyond len; wf of the result is the 'no bit of b at index >= n influences later observations' clause." + DYN_NOTE),
-    note=(COVER_BVF + "Also verified: Bvf op= &Bvd and Bvd op= &Bvf (operand read in chunks of the left word type through get_int). Bv op= &Bvf/&Bvd/&Bv and !Bv (dispatch) are verified too. Not yet under contract: native right operands, Not for &Bvd/&Bv, by-value forwarders (covered only by the second engine). " + TRUST_NOTE))
+    note=(COVER_BVF + "Also verified: Bvf op= &Bvd and Bvd op= &Bvf (operand read in chunks of the left word type through get_int). Bv op= &Bvf/&Bvd/&Bv and !Bv (dispatch) are verified too. Native right operands of &= |= ^= (x: u8..u64; Bvf, Bvd, Bv) are verified against the bits of x. Not yet under contract: u128/usize natives, Not for &Bv, by-value forwarders (covered only by the second engine). " + TRUST_NOTE))
 for _p in ("C05", "C06", "C07", "C08", "C16", "C18", "C19"):
     MANIFEST_TEXT[_p]["text"] += DYN_NOTE
